@@ -70,3 +70,19 @@ claim('C15', 'PARTIAL. Closed theorems over Model/Batch.v: database = same multi
 claim('C19', 'PARTIAL. Closed theorems over Model/Files.v: SMILES table write/read identity (distinct whitespace-free names), 4-decimal energy codec idempotent / identity on 4-decimal values / nearest, and for ANY SD codec (Section variables): '
       'conformer count and order under both limits, per-conformer energies, in-memory property map restored by mol_to_sdf (exact general effect otherwise). Tested, not proved: molecule identity, coordinates <= 5e-5, names through RDKit and smart_open.',
       TB + ' SD writer/reader, compression are RDKit\'s / smart_open\'s.', 'Coq proof over an oracle-parameterised model + differential correspondence', 'DESIGN.md 5 C19, 8')
+claim('C05', 'Closed theorems on model M3 (a pool of database objects over an explicit NumPy buffer store, so sharing between derived databases is representable): over ANY operation list the name index lists exactly the rows carrying '
+      'each name, increasing, no empty entries; every property column and the names list have one entry per row; add/concat/get_subset/as_type/copy/db[i]/db[name] return or append exactly the specified rows and names in order, cast to the '
+      'database type; no operation writes a buffer or object reachable from another database (store_only_grows), hence reads (also of absent names), ==, density, similarity, fold, subset, as_type, copy, pickle, concat leave every database and '
+      'every pairwise == unchanged (snapshots_independent over any history). Tie: random histories over a pool of live databases, every database fully re-observed after every step on both sides.',
+      TB + ' SciPy/NumPy containers and the measured sharing table are modelled; row well-formedness as a history invariant: see evidence for whether it is among the discharged obligations.', 'Coq proof (refinement + ownership invariant by induction over histories) + differential correspondence', 'DESIGN.md 5 C05, 3.3')
+claim('C06', 'Axiom-free, all vector lengths and values, exact rationals (cosine/Pearson carried as (num, den^2), compared through the monotone signed square): each of the 15 code paths (fingerprint pair, dense array, CSR; five measures) equals its '
+      'definition with the zero-denominator-scores-0 convention; from the definitions: symmetry, self-similarity 1, range [0,1], |cosine|,|Pearson| <= 1 (Cauchy-Schwarz), Soergel = Tanimoto on binary data, zero vector scores 0, rejection of unequal '
+      'lengths, the four calling forms agree (dispatch_consistent). Sparse Soergel proved for rows in any order with explicit zeros and repeated columns. Tie: implementation floats vs model and vs definition at 1e-9 over all forms, both numba and pure-Python kernels.',
+      TB + ' Raw-array Tanimoto/Dice assume 0/1 data (their documented contract); values non-negative; database forms limited in bits by SciPy memory. Known finding: stored zero counts in fingerprint-pair Tanimoto/Dice.', 'Coq proof + differential correspondence', 'DESIGN.md 5 C06')
+claim('C16', 'Closed theorems on M3: a fingerprint of wrong length or level or lacking a required property at ANY batch position, a wrong-length property column at any position, an incompatible concat operand at any position are refused; refusal_atomic: '
+      'for every operation a refusal returns exactly the state it was given (buffers, rows, names, index, properties), at every state reachable by any history. Tie: fault enumeration (every fault kind x every position in batches of 1-5) with full state '
+      'comparison before/after on both sides.', TB, 'Coq proof (case analysis over operations + reachable-state invariant) + fault enumeration', 'DESIGN.md 5 C16')
+claim('C20', 'Axiom-free over the model of e3fp.config.params on top of configparser / ast.literal_eval: for all integers str() can print, all float repr tokens, booleans, None and all line-safe non-literal strings an option written and read back yields the same key '
+      'and typed value (unrestricted statement refuted with witnesses = the listed known findings); user value wins, absent option = default iff fill_defaults; FINITE over tables regenerated from the working tree each run: every option of defaults.cfg equals, '
+      'type-exactly, the default of the same-named parameter of all eight entry points incl. both argparse parsers (bits excepted). Tie: ~4400 cases per quick run at every stage, classifier validated against the real literal_eval, end-to-end fingerprints via '
+      'parameter file vs direct options.', TB + ' configparser, literal_eval, str/repr as modelled; reflection (inspect.signature, intercepted parse_args).', 'Coq proof + regenerated facts + differential correspondence', 'DESIGN.md 5 C20')
